@@ -154,6 +154,7 @@ func (its *PushPullHandler) finalize() {
 			go func() {
 				defer vhook.Done()
 				defer its.recoveryFromPanic()
+				vhook.At("pp.post.start", its.collectionDoc.Num, its.Key, its.currentCP.Sseq)
 				if err := its.sendNotification(newCtx); err == nil {
 					// continue
 				}
